@@ -1,8 +1,8 @@
 #!/bin/bash
 # Re-evaluate every seeded change against the check of the property it breaks (quick tier), one after the other.
-# Uses $PYBADS_REPO (default /repo); with SEED_RESULTS_DIR set, results go there instead of seeded/<id>/results.json.
+# SEEDS='seeded/*-m7/ seeded/*-m8/' restricts the set.  Uses $PYBADS_REPO (default /repo); with SEED_RESULTS_DIR set, results go there instead of seeded/<id>/results.json.
 cd "$(dirname "$0")/.."
-for d in seeded/*/; do
+for d in ${SEEDS:-seeded/*/}; do
   id=$(basename "$d")
   ./tools/seed_eval.py "$id" 2>&1 | tail -1
 done
